@@ -4,13 +4,19 @@
    processor logged) evaluate the very same definitions.
 
    c  - context record: V (vote rate), D (deposit rate), mindep, income, pool, zero, issuer,
-        rev / sink / burn / back (contract accounts by behaviour)
+        rev / sink / burn / back (contract accounts by behaviour);
+        terms: deps (sequence: term index + 1 -> the accounts whose node id is a deputy of that term),
+        payees (sequence: term index + 1 -> sequence of [a: income account, v: votes] of that term's nodes),
+        prec (reward precision), rm (reward manager), rc (reward precompile account), rpool (reward pool total)
    dv - set of deviation keys switched on (known defects of the implementation, see Ledger.tla)
-   s  - ledger state: bal, votes, vf (voteFor), reg ("no" | "yes" | "was"), dep, eq (asset equity), sup, frz, code
-   b  - block accumulator: s, start (balances at block start), fees (collected, credited at Finalize),
-        rew (LEMO legitimately issued), burn (LEMO legitimately destroyed), bad (an included asset transaction
-        that C12 forbids: wrong sender, non-positive issue, negative / oversized / frozen transfer)
-   t  - transaction record: k, f, t, p (gas payer), amt, gl, gp, gu (gas used), inc (packaged), subs            *)
+   s  - ledger state: bal, votes, vf (voteFor), reg ("no" | "yes" | "was"), dep, eq (asset equity), sup, frz, code;
+        h (height of the block this is the end state of), T / I (term / interim duration in blocks),
+        rwd / rwt (sequences, term index + 1 -> term reward set through the precompile / how often it was set)
+   b  - block accumulator: s, h (height of the block), start (balances at block start), fees (collected, credited at
+        Finalize), rew (LEMO legitimately issued), burn (LEMO legitimately destroyed), bad (an included asset
+        transaction that C12 forbids: wrong sender, non-positive issue, negative / oversized / frozen transfer)
+   t  - transaction record: k, f, t, p (gas payer), amt, gl, gp, gu (gas used), inc (packaged), subs,
+        x (kind specific: the term of a reward setting)                                                        *)
 EXTENDS Integers, Sequences, FiniteSets
 
 NONE == "none"
@@ -22,6 +28,19 @@ Total(f) == SumOver(f, DOMAIN f)
 
 RECURSIVE SumGas(_, _)
 SumGas(q, i) == IF i > Len(q) THEN 0 ELSE q[i].gu + SumGas(q, i + 1)
+
+(* ---------------------------------------------------------------- heights and terms (deputynode/term_record.go) *)
+\* Term k is elected by snapshot block k*T; its deputies sign from block k*T + I + 1 (the REWARD block of term k - 1:
+\* first block of a term, pays the finished term and the deferred deposit refunds) to (k+1)*T + I; blocks
+\* k*T .. k*T + I (k >= 1) are the interim period.
+SignerTerm(s, h) == IF h < s.T + s.I + 1 THEN 0 ELSE (h - s.I - 1) \div s.T
+IsReward(s, h)   == h >= s.T + s.I + 1 /\ h % s.T = s.I + 1
+IsInterim(s, h)  == h % s.T <= s.I /\ h > s.I
+IsSnapshot(s, h) == h % s.T = 0
+DeputiesAt(c, s, h) == LET k == SignerTerm(s, h) + 1 IN IF k <= Len(c.deps) THEN c.deps[k] ELSE {}
+
+RECURSIVE SumSeq(_, _)
+SumSeq(q, i) == IF i > Len(q) THEN 0 ELSE q[i] + SumSeq(q, i + 1)
 
 Fee(t) == t.gu * t.gp
 Charge(b, a, n) == [b EXCEPT !.s.bal[a] = @ - n, !.fees = @ + n]
@@ -59,13 +78,27 @@ OpReg(c, b, t) ==
                                [Move(b1, t.f, c.pool, t.amt) EXCEPT !.s.dep[t.f] = d0 + t.amt,
                                                                    !.s.votes[t.f] = @ + ((d0 + t.amt) \div c.D - d0 \div c.D)]
     [] OTHER                -> b1                                             \* never again after unregistering
-\* RegisterTx with isCandidate = false: votes drop to zero, the deposit comes back from the pool (the accounts of
-\* the universe that can do this are not deputies and the heights are outside the interim period)
+\* RegisterTx with isCandidate = false: votes drop to zero; the deposit comes back from the pool at once, unless the
+\* block lies in the interim period or the account is a deputy of the term that signs this block - then the deposit
+\* stays recorded and is refunded by the next reward block in which the account is not a deputy (Finalize)
 OpUnreg(c, b, t) ==
-  LET b1 == Charge(b, t.p, Fee(t))  d0 == b.s.dep[t.f] IN
-  IF b.s.reg[t.f] = "yes"
-  THEN [Move(b1, c.pool, t.f, d0) EXCEPT !.s.reg[t.f] = "was", !.s.votes[t.f] = 0, !.s.dep[t.f] = 0]
-  ELSE b1
+  LET b1 == Charge(b, t.p, Fee(t))  d0 == b.s.dep[t.f]
+      deferred == IsInterim(b.s, b.h) \/ t.f \in DeputiesAt(c, b.s, b.h) IN
+  IF b.s.reg[t.f] # "yes" THEN b1
+  ELSE IF deferred THEN [b1 EXCEPT !.s.reg[t.f] = "was", !.s.votes[t.f] = 0]
+  ELSE [Move(b1, c.pool, t.f, d0) EXCEPT !.s.reg[t.f] = "was", !.s.votes[t.f] = 0, !.s.dep[t.f] = 0]
+
+\* The reward precompile (vm/contracts.go setRewardValue), called by an ordinary transaction that carries no LEMO:
+\* only the reward manager, a value below the pool total, a term whose reward block is not yet behind (the reward
+\* block itself still counts), at most two settings per term, all terms together within the pool.  A refused call
+\* costs its gas and sets nothing.
+OpSetRew(c, b, t) ==
+  LET b1 == Charge(b, t.p, Fee(t))  k == t.x + 1
+      ok == /\ t.f = c.rm /\ k >= 1 /\ k <= Len(b.s.rwd) /\ t.amt >= 0 /\ t.amt < c.rpool
+            /\ (t.x + 1) * b.s.T + b.s.I + 1 >= b.h
+            /\ b.s.rwt[k] < 2
+            /\ SumSeq([b.s.rwd EXCEPT ![k] = t.amt], 1) <= c.rpool
+  IN IF ok THEN [b1 EXCEPT !.s.rwd[k] = t.amt, !.s.rwt[k] = @ + 1] ELSE b1
 
 (* ---------------------------------------------------------------- the issued asset (one divisible token) *)
 OpIssue(c, b, t) ==   \* issue and replenish: only the issuer, only a positive amount, not while frozen
@@ -90,6 +123,7 @@ Plain(c, dv, b, t) ==
     [] t.k = "vote"  -> OpVote(c, dv, b, t)
     [] t.k \in {"reg", "topup"} -> OpReg(c, b, t)
     [] t.k = "unreg" -> OpUnreg(c, b, t)
+    [] t.k = "setrew" -> OpSetRew(c, b, t)
     [] t.k \in {"issue", "repl"} -> OpIssue(c, b, t)
     [] t.k = "axfer" -> OpATransfer(c, dv, b, t)
     [] t.k = "freeze" -> OpFreeze(c, b, t, TRUE)
@@ -115,19 +149,53 @@ ApplyTx(c, dv, b, t) == IF ~t.inc THEN b ELSE IF t.k = "box" THEN OpBox(c, dv, b
 RECURSIVE ApplyAll(_, _, _, _, _)
 ApplyAll(c, dv, b, q, i) == IF i > Len(q) THEN b ELSE ApplyAll(c, dv, ApplyTx(c, dv, b, q[i]), q, i + 1)
 
-Begin(s) == [s |-> s, start |-> s.bal, fees |-> 0, rew |-> 0, burn |-> 0, bad |-> FALSE]
+Begin(s) == [s |-> s, h |-> s.h + 1, start |-> s.bal, fees |-> 0, rew |-> 0, burn |-> 0, bad |-> FALSE]
 
-\* end of block: the miner's income address receives the collected fees; every account's net balance change of the
-\* block moves the votes of the candidate it votes for at the end of the block
-Finalize(c, b) ==
-  LET s1 == [b.s EXCEPT !.bal[c.income] = @ + b.fees]
-      dl == [a \in DOMAIN s1.bal |-> IF s1.vf[a] # NONE /\ s1.reg[s1.vf[a]] = "yes"
-                                       THEN W(c, s1.bal[a]) - W(c, b.start[a]) ELSE 0]
-  IN [b EXCEPT !.s = [s1 EXCEPT !.votes = [x \in DOMAIN s1.votes |->
-                                            s1.votes[x] + SumOver(dl, {a \in DOMAIN s1.bal : s1.vf[a] = x})]],
-               !.fees = 0]
+(* ---------------------------------------------------------------- end of block (assembler.go Finalize) *)
+\* The reward block pays the term that signed the block before it: the reward set for that term is divided among the
+\* term's nodes by their votes (equally when nobody has votes), each share rounded down to the reward precision, and
+\* credited to the node's income account.  This LEMO is issued.
+RECURSIVE SumV(_, _)
+SumV(q, i) == IF i > Len(q) THEN 0 ELSE q[i].v + SumV(q, i + 1)
+Salaries(c, s, h) ==
+  LET k     == SignerTerm(s, h - 1) + 1
+      total == IF k <= Len(s.rwd) THEN s.rwd[k] ELSE 0
+      ps    == IF k <= Len(c.payees) THEN c.payees[k] ELSE <<>>
+      n     == Len(ps)
+      tv    == SumV(ps, 1)
+      raw(i) == IF tv = 0 THEN total \div n ELSE (total * ps[i].v) \div tv
+  IN IF total <= 0 \/ n = 0 THEN <<>> ELSE [i \in 1..n |-> [a |-> ps[i].a, n |-> raw(i) - (raw(i) % c.prec)]]
+RECURSIVE PayAll(_, _, _)
+PayAll(s, pay, i) == IF i > Len(pay) THEN s ELSE PayAll([s EXCEPT !.bal[pay[i].a] = @ + pay[i].n], pay, i + 1)
+RECURSIVE SumPay(_, _)
+SumPay(pay, i) == IF i > Len(pay) THEN 0 ELSE pay[i].n + SumPay(pay, i + 1)
 
-Block(c, dv, s, q) == Finalize(c, ApplyAll(c, dv, Begin(s), q, 1))
+\* the deposits the reward block hands back: every unregistered candidate whose deposit is still recorded and that is
+\* not a deputy of the term this block starts
+Refundable(c, s, h) == {a \in DOMAIN s.bal : s.reg[a] = "was" /\ s.dep[a] > 0 /\ a \notin DeputiesAt(c, s, h)}
+
+\* End of block, in the order the properties need: (processor) the miner's income address receives the collected fees;
+\* (reward block only) term reward issue, then deposit refunds out of the pool; LAST every account's net balance
+\* change of the whole block - fees, transfers, reward, refund - moves the votes of the candidate it votes for at the
+\* end of the block.  Mut_VotePassBeforeRefund (a mutant, not a known defect: negative control of the design run)
+\* lets the vote pass run before the refunds.
+Finalize(c, dv, b) ==
+  LET s1  == [b.s EXCEPT !.bal[c.income] = @ + b.fees, !.h = b.h]
+      rwb == IsReward(b.s, b.h)
+      pay == IF rwb THEN Salaries(c, s1, b.h) ELSE <<>>
+      s2  == PayAll(s1, pay, 1)
+      R   == IF rwb THEN Refundable(c, s2, b.h) ELSE {}
+      s3  == [s2 EXCEPT !.bal = [a \in DOMAIN s2.bal |-> IF a \in R THEN s2.bal[a] + s2.dep[a]
+                                                         ELSE IF a = c.pool THEN s2.bal[a] - SumOver(s2.dep, R) ELSE s2.bal[a]],
+                        !.dep = [a \in DOMAIN s2.dep |-> IF a \in R THEN 0 ELSE s2.dep[a]]]
+      sv  == IF "Mut_VotePassBeforeRefund" \in dv THEN s2 ELSE s3
+      dl  == [a \in DOMAIN sv.bal |-> IF sv.vf[a] # NONE /\ sv.reg[sv.vf[a]] = "yes"
+                                       THEN W(c, sv.bal[a]) - W(c, b.start[a]) ELSE 0]
+  IN [b EXCEPT !.s = [s3 EXCEPT !.votes = [x \in DOMAIN s3.votes |->
+                                            s3.votes[x] + SumOver(dl, {a \in DOMAIN s3.bal : s3.vf[a] = x})]],
+               !.fees = 0, !.rew = @ + SumPay(pay, 1)]
+
+Block(c, dv, s, q) == Finalize(c, dv, ApplyAll(c, dv, Begin(s), q, 1))
 
 (* ---------------------------------------------------------------- the properties, on states *)
 NonNegBal(s) == \A a \in DOMAIN s.bal : s.bal[a] >= 0
@@ -136,6 +204,8 @@ Tally(c, s, x) == IF s.reg[x] = "yes"
                   THEN s.dep[x] \div c.D + SumOver([a \in DOMAIN s.bal |-> W(c, s.bal[a])], {a \in DOMAIN s.bal : s.vf[a] = x})
                   ELSE 0
 VotesOK(c, s) == \A x \in DOMAIN s.votes : s.votes[x] = Tally(c, s, x) /\ s.votes[x] >= 0
+\* C05: what the deposit pool holds beyond the recorded deposits (constant: the pool is debited exactly by refunds)
+PoolSurplus(c, s) == s.bal[c.pool] - Total(s.dep)
 \* C12
 SupplyOK(s) == s.sup = Total(s.eq) /\ \A a \in DOMAIN s.eq : s.eq[a] >= 0
 ====
